@@ -151,6 +151,70 @@ class InsertNoops(ast.NodeTransformer):
         return node
 
 
+class ExtractArgument(ast.NodeTransformer):
+    """f(a, EXPR, c) as a statement / assignment  ->  arg_tmp = EXPR; f(a, arg_tmp, c)   for the first non-trivial argument
+    of stream_* helper calls and sub-construct calls (argument evaluation order is preserved: earlier arguments are names)."""
+
+    TARGETS = ("stream_read", "stream_write", "stream_seek")
+
+    def visit_FunctionDef(self, node):
+        self.generic_visit(node)
+        if node.name.startswith("_emit"):
+            return node
+        node.body = self._block(node.body)
+        return node
+
+    def _block(self, stmts):
+        out = []
+        for st in stmts:
+            for field in ("body", "orelse", "finalbody"):
+                if hasattr(st, field) and isinstance(getattr(st, field), list) and not isinstance(st, (ast.FunctionDef, ast.ClassDef)):
+                    setattr(st, field, self._block(getattr(st, field)))
+            if isinstance(st, ast.Try):
+                for h in st.handlers:
+                    h.body = self._block(h.body)
+            call = None
+            if isinstance(st, ast.Expr) and isinstance(st.value, ast.Call):
+                call = st.value
+            elif isinstance(st, ast.Assign) and isinstance(st.value, ast.Call):
+                call = st.value
+            if call is not None and isinstance(call.func, ast.Name) and call.func.id in self.TARGETS and len(call.args) >= 2 \
+                    and all(isinstance(a, ast.Name) for a in call.args[:1]) and isinstance(call.args[1], (ast.BinOp, ast.Attribute, ast.Call)) \
+                    and not any(isinstance(n, ast.Call) for a in call.args[2:] for n in ast.walk(a)):
+                tmp = ast.Name(id="arg_tmp", ctx=ast.Store())
+                out.append(ast.Assign(targets=[tmp], value=call.args[1], lineno=st.lineno))
+                call.args[1] = ast.Name(id="arg_tmp", ctx=ast.Load())
+            out.append(st)
+        return out
+
+
+class ReorderAssignments(ast.NodeTransformer):
+    """Swap two adjacent assignments  a = <name/attr/const>; b = <name/attr/const>  that do not mention each other."""
+
+    def visit_FunctionDef(self, node):
+        self.generic_visit(node)
+        body = list(node.body)
+        i = 0
+        while i + 1 < len(body):
+            a, b = body[i], body[i + 1]
+            if self.simple(a) and self.simple(b):
+                na, nb = a.targets[0].id, b.targets[0].id
+                ra = {n.id for n in ast.walk(a.value) if isinstance(n, ast.Name)}
+                rb = {n.id for n in ast.walk(b.value) if isinstance(n, ast.Name)}
+                if na != nb and na not in rb and nb not in ra:
+                    body[i], body[i + 1] = b, a
+                    i += 2
+                    continue
+            i += 1
+        node.body = body
+        return node
+
+    @staticmethod
+    def simple(st):
+        return isinstance(st, ast.Assign) and len(st.targets) == 1 and isinstance(st.targets[0], ast.Name) and \
+            isinstance(st.value, (ast.Name, ast.Attribute, ast.Constant)) and not any(isinstance(n, ast.Call) for n in ast.walk(st.value))
+
+
 NEUTRAL = [
     ("reformat (ast.unparse of every module)", None),
     ("rename every local variable", RenameLocals),
@@ -159,6 +223,8 @@ NEUTRAL = [
     ("reword every exception message", RewordMessages),
     ("return through a temporary", ReturnViaTemp),
     ("insert no-op statements", InsertNoops),
+    ("extract a call argument into a local", ExtractArgument),
+    ("reorder independent adjacent assignments", ReorderAssignments),
 ]
 
 
